@@ -152,7 +152,7 @@ func c10HardCert(c *Ctx, m *shimModel) {
 			c.Check(okNil && noEffect, "R1.hardcert", "AddHardCert|re-adding is a no-op", w.Pos(r.Pos()), "returns nil before touching the agent", "adding an already present hardware certificate is not a pure no-op")
 		}
 		for _, lf := range w.Leaves(r.Results[0], r) {
-			if ex := w.Expr(lf.Val); strings.HasPrefix(ex, "global:"+RepoMod+"/"+shimPkg+".") && !f.Any(b, func(l Lit) bool { return m.isLoadOfField(l.V, m.fLocked) && l.Pol }) {
+			if ex := w.Expr(lf.Val); strings.HasPrefix(ex, "global:"+RepoMod+"/"+shimPkg+".") && !f.Any(b, func(l Lit) bool { v, ok := m.lockedLit(l); return ok && v }) {
 				nAbsent++
 				// reached only after the whole listing was scanned
 				done := f.Any(b, func(l Lit) bool {
@@ -490,6 +490,14 @@ func c10Errors(c *Ctx, m *shimModel) {
 						}
 					}
 				}
+				if !acc && u.Err != nil {
+					// handed to a helper of the package that gives a non-nil error back as its own result; that call's result
+					// is subject to this rule in turn
+					if h := errHandedBack(w, u.Err); h != nil {
+						c.Ok("R5.errors", key+" error examined", w.Pos(call.Pos()), "handed to "+shortFn(h)+", which returns it when non-nil")
+						continue
+					}
+				}
 				if !acc {
 					// cleanup on a path that already carries a non-nil error, which is what gets returned
 					onErrPath := f.Any(call.Block(), func(l Lit) bool { _, isNil, ok := nilTest(l); return ok && !isNil && isErrorType(lhsType(l)) })
@@ -679,4 +687,62 @@ func c10Deletions(c *Ctx, m *shimModel) {
 			}
 		}
 	}
+}
+
+// errHandedBack: every use of error value ev is as an argument of one statically called repository helper whose
+// returns, when that parameter is non-nil, yield a non-nil error (the parameter itself, or a certainly non-nil
+// value). Returns the helper.
+func errHandedBack(w *World, ev ssa.Value) *ssa.Function {
+	var h *ssa.Function
+	var site *ssa.Call
+	for _, ins := range valueUsers(ev) {
+		if _, isDbg := ins.(*ssa.DebugRef); isDbg {
+			continue
+		}
+		cc, ok := ins.(*ssa.Call)
+		if !ok || site != nil {
+			return nil
+		}
+		site = cc
+	}
+	if site == nil {
+		return nil
+	}
+	h = site.Call.StaticCallee()
+	if h == nil || !w.InRepo(h) || h.Blocks == nil || errorResultIndex(h) < 0 {
+		return nil
+	}
+	pi := -1
+	for i, a := range site.Call.Args {
+		if a == ev {
+			if pi >= 0 {
+				return nil
+			}
+			pi = i
+		}
+	}
+	if pi < 0 || pi >= len(h.Params) {
+		return nil
+	}
+	p := h.Params[pi]
+	// the parameter is only tested against nil and returned (not overwritten: parameters are SSA values)
+	f := w.factsOf(h)
+	idx := errorResultIndex(h)
+	for _, r := range liveReturns(h) {
+		if isNil, known := f.KnownNil(r.Block(), p); known && isNil {
+			continue
+		}
+		for _, lf := range w.leaves(r.Results[idx], r, false) {
+			if throughCell(strip(lf.Val)) == ssa.Value(p) {
+				continue
+			}
+			if isNil, known := f.knownNilIn(lf.Facts, p); known && isNil {
+				continue
+			}
+			if !w.NonNil(lf.Val, lf.Facts) {
+				return nil
+			}
+		}
+	}
+	return h
 }
